@@ -9,7 +9,7 @@ import (
 
 // HashInput is the harness's HashInputProvider for TV keys.
 func HashInput(v atree.Value, buf []byte) ([]byte, error) {
-	tv, ok := v.(TV)
+	tv, ok := AsTV(v)
 	if !ok {
 		return nil, fmt.Errorf("hash input: not a TV: %T", v)
 	}
@@ -21,13 +21,15 @@ func HashInput(v atree.Value, buf []byte) ([]byte, error) {
 
 // CompareKey is the harness's ValueComparator: equality of (size, payload).
 func CompareKey(st atree.SlabStorage, v atree.Value, s atree.Storable) (bool, error) {
-	tv, ok := v.(TV)
+	tv, ok := AsTV(v)
 	if !ok {
 		return false, fmt.Errorf("compare: key is %T", v)
 	}
 	switch x := s.(type) {
 	case TV:
 		return x == tv, nil
+	case FS: // a key storable whose StoredValue() can fail: compared without calling it
+		return x.TV == tv, nil
 	case atree.SlabIDStorable:
 		sv, err := x.StoredValue(st)
 		if err != nil {
@@ -47,6 +49,14 @@ type TableDigesterBuilder struct {
 	// CallHip makes the builder consult the hash-input provider like the library's own builder does
 	// (its result is not used): a failing provider then fails the request on collision-table maps too.
 	CallHip bool
+	// FailDigest makes Digest(hip, v) fail, FailLevel makes Digester.Digest(level) of the digesters handed
+	// out fail (in-range levels only), both with the RAW error ErrInjected: a caller-supplied DigesterBuilder
+	// / Digester, unlike atree.NewDefaultDigesterBuilder, which wraps the provider's error itself (C18).
+	FailDigest *FailSwitch
+	FailLevel  *FailSwitch
+	// FailedAtLevel / FailedKey: level and key of the Digester.Digest call that FailLevel made fail.
+	FailedAtLevel uint
+	FailedKey     TV
 }
 
 var _ atree.DigesterBuilder = &TableDigesterBuilder{}
@@ -54,7 +64,7 @@ var _ atree.DigesterBuilder = &TableDigesterBuilder{}
 func (b *TableDigesterBuilder) SetSeed(uint64, uint64) {}
 
 func (b *TableDigesterBuilder) Digest(hip atree.HashInputProvider, v atree.Value) (atree.Digester, error) {
-	tv, ok := v.(TV)
+	tv, ok := AsTV(v)
 	if !ok {
 		return nil, fmt.Errorf("digest: key is %T", v)
 	}
@@ -63,14 +73,21 @@ func (b *TableDigesterBuilder) Digest(hip atree.HashInputProvider, v atree.Value
 			return nil, err
 		}
 	}
-	d := &tableDigester{}
+	if b.FailDigest.Hit() {
+		return nil, ErrInjected
+	}
+	d := &tableDigester{b: b, key: tv}
 	for l := uint(0); l < b.L; l++ {
 		d.digs = append(d.digs, atree.Digest(b.Fn(tv, l)))
 	}
 	return d, nil
 }
 
-type tableDigester struct{ digs []atree.Digest }
+type tableDigester struct {
+	digs []atree.Digest
+	b    *TableDigesterBuilder
+	key  TV
+}
 
 func (d *tableDigester) DigestPrefix(level uint) ([]atree.Digest, error) {
 	if level > uint(len(d.digs)) {
@@ -81,6 +98,10 @@ func (d *tableDigester) DigestPrefix(level uint) ([]atree.Digest, error) {
 func (d *tableDigester) Digest(level uint) (atree.Digest, error) {
 	if level >= uint(len(d.digs)) {
 		return 0, fmt.Errorf("level %d out of range", level)
+	}
+	if d.b != nil && d.b.FailLevel.Hit() {
+		d.b.FailedAtLevel, d.b.FailedKey = level, d.key
+		return 0, ErrInjected
 	}
 	return d.digs[level], nil
 }
@@ -108,7 +129,7 @@ func Digests(b atree.DigesterBuilder, key TV) ([]uint64, error) {
 // default digester this produces genuine collisions on every level between keys of one bucket, and
 // exercises the library's pooled digesters beyond level 0.
 func HashInputBucket(v atree.Value, buf []byte) ([]byte, error) {
-	tv, ok := v.(TV)
+	tv, ok := AsTV(v)
 	if !ok {
 		return nil, fmt.Errorf("hash input: not a TV: %T", v)
 	}
@@ -137,7 +158,7 @@ func DigestsWith(b atree.DigesterBuilder, hip atree.HashInputProvider, key TV) (
 // digester's own scratch space, so a digester handed back to its pool too early, or reused without
 // being reset, corrupts digests that are computed lazily (levels 1..3).
 func HashInputScratch(v atree.Value, buf []byte) ([]byte, error) {
-	tv, ok := v.(TV)
+	tv, ok := AsTV(v)
 	if !ok {
 		return nil, fmt.Errorf("hash input: not a TV: %T", v)
 	}
@@ -152,7 +173,7 @@ func HashInputScratch(v atree.Value, buf []byte) ([]byte, error) {
 // HashInputBucketScratch: HashInputBucket's message (non-injective: genuine collisions on every
 // level), written into the supplied scratch buffer and returned as a sub-slice of it.
 func HashInputBucketScratch(v atree.Value, buf []byte) ([]byte, error) {
-	tv, ok := v.(TV)
+	tv, ok := AsTV(v)
 	if !ok {
 		return nil, fmt.Errorf("hash input: not a TV: %T", v)
 	}
